@@ -74,6 +74,8 @@ def drawFix (s : Scr) (ls : Lines) (xtop xleft : Int) (r1 r2 n : Int) (preview :
   let xrows : Int := s.length
   let dis := n - (r2 - r1 + 1)
   let xtop := if preview && r1 < xtop then r1 else xtop
+  -- the replaced lines start above the window: the whole window is redrawn
+  if r1 < xtop then (drawRows s ls xtop xleft ((List.range s.length).map (fun (k : Nat) => xtop + (k : Int))), xtop) else
   let r1 := min (max r1 xtop) (xtop + xrows - 1)
   let r2 := min (max r2 xtop) (xtop + xrows - 1)
   let s := room s (r1 - xtop) (r1 - r2 - 1 + n)
